@@ -10,6 +10,7 @@ void prop_init()
 {
   ys_set_arena_initial_size(262144);
   g_samples.load();
+  g_gen_no_regexp = true;
 }
 
 static std::string fixed_rules()
@@ -43,6 +44,8 @@ struct ScanSpec
   int yield_us = 0;
   int blob = 0;
   int flags = 0;
+  bool sigbus = false;  // block scan whose last block lies in a truncated file mapping
+  int park_us = 0;
 };
 
 static const char* XS[] = {"abc", "a", "long-long-long-long-long-long-long-long-long-long-string"};
@@ -61,8 +64,17 @@ static std::string one_scan(ys_rules* R, const std::vector<bytes>& bufs, const S
   o.modname = "tests";
   o.moddata = BLOBS[sp.blob];
   o.moddata_len = 5;
+  uint32_t sizes[2] = {(uint32_t) (bufs[sp.buf].size() / 2), (uint32_t) (bufs[sp.buf].size() - bufs[sp.buf].size() / 2)};
+  if (sp.sigbus)
+  {
+    o.entry = YS_SCAN_BLOCKS;
+    o.nblocks = 2;
+    o.block_sizes = sizes;
+    o.fault_block = 2;
+    o.park_us = sp.park_us;
+  }
   ys_scanner* sc = nullptr;
-  if (sp.scanner)
+  if (sp.scanner || sp.sigbus)
   {
     int err = 0;
     sc = ys_scanner_new(R, &err);
@@ -131,6 +143,18 @@ std::string run_case(Src& s, CaseInfo& ci)
       sp.flags = F[s.range(0, 3)];
       if (sp.entry == YS_SCAN_FILE)
         features |= 8;
+      if (s.coin(12) && bufs[sp.buf].size() >= 2)
+      {
+        // a scan whose data disappears under it (file truncated while mapped): the
+        // library must turn the SIGBUS into ERROR_COULD_NOT_MAP_FILE, also when other
+        // scans enter and leave their own protected regions meanwhile
+        sp.sigbus = true;
+        sp.scanner = true;
+        sp.script_k = sp.script_action = 0;
+        sp.flags = 0;
+        sp.park_us = (int) s.range(0, 3000);
+        features |= 8 | 16;
+      }
       features |= 1 | 2;  // the fixed rules always use the regexp VM and modules
       plan[t].push_back(sp);
     }
@@ -144,8 +168,9 @@ std::string run_case(Src& s, CaseInfo& ci)
   ci.desc += strf("%d threads, plan repeated %d times:\n", nthreads, repeats);
   for (int t = 0; t < nthreads && t < 6; t++)
     for (auto& sp : plan[t])
-      ci.desc += strf(" t%d: buf%d(%zu bytes) entry=%d %s xi=%d xs=%d script=%d@%d yield=%d blob%d flags=%d\n", t, sp.buf, bufs[sp.buf].size(),
-                      sp.entry, sp.scanner ? "scanner" : "rules-level", sp.xi, sp.xs, sp.script_action, sp.script_k, sp.yield_us, sp.blob, sp.flags);
+      ci.desc += strf(" t%d: buf%d(%zu bytes) entry=%d %s xi=%d xs=%d script=%d@%d yield=%d blob%d flags=%d%s\n", t, sp.buf, bufs[sp.buf].size(),
+                      sp.entry, sp.scanner ? "scanner" : "rules-level", sp.xi, sp.xs, sp.script_action, sp.script_k, sp.yield_us, sp.blob, sp.flags,
+                      sp.sigbus ? strf(" SIGBUS-in-2nd-block(park %d us)", sp.park_us).c_str() : "");
   ci.hash = hstr(ci.desc);
   checkpoint(s, ci.desc);
 
